@@ -1453,6 +1453,7 @@ def run(tier, seed):
     # 1. corpus
     run_corpus(res)
     partial_file_probe(res)
+    real_session_probe(res)
     # 2. seeded random (malformed replies included)
     kinds = random_sessions(res, seed, 6000 if tier == "quick" else 60000)
     random_direct(res, seed, 6000 if tier == "quick" else 60000)
@@ -1469,6 +1470,92 @@ def run(tier, seed):
         if not res.stats.get('enum_' + need):
             res.harness_errors.append(f'enumeration never reached {need!r}')
     return res
+
+
+def real_session_probe(res):
+    """The Daemon through ITS OWN session (`async with daemon:` as Controller.serve uses it) against an
+    in-process HTTP server on 127.0.0.1 that answers like bitcoind: JSON-RPC error replies to single calls
+    come with HTTP 500 / 404 and Content-Type application/json, work-queue refusals as 503 text pages.
+    Direct oracle (C18): a genuine RPC error is raised to the caller after ONE request, never retried;
+    warming-up (-28, HTTP 500) and work-queue replies are ridden out and the real answer returned."""
+    import asyncio
+    import json as _json
+    from aiohttp import web
+    from electrumx.lib.coins import BitcoinSV
+    import electrumx.server.daemon as dm
+
+    async def main():
+        script = []          # replies still to give: (status, content_type, body)
+        seen = []
+
+        async def handle(request):
+            seen.append(await request.text())
+            status, ctype, body = script.pop(0) if script else (200, 'application/json',
+                                                                 _json.dumps({'result': 1, 'error': None, 'id': 0}))
+            # exactly the header bitcoind sends (no charset parameter: the Daemon compares the whole value)
+            return web.Response(status=status, body=body.encode(), headers={'Content-Type': ctype})
+        app = web.Application()
+        app.router.add_post('/', handle)
+        runner = web.AppRunner(app)
+        await runner.setup()
+        site = web.TCPSite(runner, '127.0.0.1', 0)
+        await site.start()
+        port = site._server.sockets[0].getsockname()[1]
+        fails = []
+        try:
+            d = dm.Daemon(BitcoinSV, f'http://u:p@127.0.0.1:{port}/', init_retry=0.01, max_retry=0.04)
+            d.logger = _Log()
+            async with d:
+                def err(code, msg):
+                    return _json.dumps({'result': None, 'error': {'code': code, 'message': msg}, 'id': 0})
+                # 1. a genuine error on HTTP 500, as bitcoind sends it
+                script[:] = [(500, 'application/json', err(-5, 'No such mempool or blockchain transaction'))]
+                seen.clear()
+                try:
+                    r = await asyncio.wait_for(d.getrawtransaction('00' * 32), 3)
+                    fails.append(f'getrawtransaction answered {r!r} for a daemon reply that is a genuine RPC error')
+                except dm.DaemonError as e:
+                    if len(seen) != 1:
+                        fails.append(f'a genuine RPC error (HTTP 500) was raised only after {len(seen)} requests')
+                except asyncio.TimeoutError:
+                    fails.append(f'a genuine RPC error on HTTP 500 was retried ({len(seen)} requests in 3 s) instead of raised')
+                # 2. method not found on HTTP 404
+                script[:] = [(404, 'application/json', err(-32601, 'Method not found'))]
+                seen.clear()
+                try:
+                    await asyncio.wait_for(d.mempool_hashes(), 3)
+                    fails.append('mempool_hashes answered for a -32601 reply')
+                except dm.DaemonError:
+                    pass
+                except asyncio.TimeoutError:
+                    fails.append(f'a genuine RPC error on HTTP 404 was retried ({len(seen)} requests in 3 s) instead of raised')
+                # 3. transient replies are ridden out
+                script[:] = [(500, 'application/json', err(-28, 'Loading block index...')),
+                             (503, 'text/html', 'Work queue depth exceeded'),
+                             (200, 'application/json', _json.dumps({'result': 77, 'error': None, 'id': 0}))]
+                seen.clear()
+                try:
+                    r = await asyncio.wait_for(d.height(), 3)
+                    if r != 77 or len(seen) != 3:
+                        fails.append(f'height() returned {r!r} after {len(seen)} requests; expected 77 after 3')
+                except Exception as e:   # noqa
+                    fails.append(f'transient replies (-28 on HTTP 500, 503 page) were not ridden out: {e!r}')
+        finally:
+            await runner.cleanup()
+        return fails
+    loop = asyncio.new_event_loop()
+    try:
+        fails = loop.run_until_complete(main())
+    except OSError as e:
+        res.harness_errors.append(f'real-session probe: cannot listen on 127.0.0.1 ({e!r})')
+        return
+    finally:
+        loop.close()
+    res.evaluations += 3
+    res.bump('real_session_probe_calls', 3)
+    for f in fails[:2]:
+        res.violations.append({'suite': SUITE, 'clause': 'genuine errors raised / transient faults ridden out (own session)',
+                               'detail': f, 'case': {'kind': 'real_session'}})
 
 
 def run_height(tier, seed):
@@ -1490,6 +1577,11 @@ def replay(case):
     cat = Catalogue()
     out = []
     try:
+        if c.get('kind') == 'real_session':
+            r = SuiteResult(SUITE)
+            env.close()
+            real_session_probe(r)
+            return [v['detail'] for v in r.violations]
         if c.get('kind') == 'probe':
             r = SuiteResult(SUITE)
             env.close()
